@@ -249,16 +249,18 @@ CLAIMED = {
     ),
     "C15": dict(
         category="other",
-        text=("Line-level Coq model of _intersect_all and _span_freqs (512-slot span table, compaction, give-up path, "
-              "min-popcount fallback, the compiled 32-bit position mask) run against the real termfreqs(slop=s) on every "
-              "generated case, and the three clauses (exact match stays; a match contains every term; distinct terms, "
-              "length+slop <= 18, in-order window matches) plus integrality decided by the extracted clause oracle "
-              "(Span/Span_Spec.v) on both. No unbounded theorem about the span machine is closed yet, hence `other`: "
-              "the assurance is differential + oracle testing on structured near-miss corpora."),
+        text=("Two of the four clauses are theorems about the line-level Coq model of _intersect_all and the repaired "
+              "_span_freqs (Props/C15.v, closed under the global context, every corpus within the limits, every batch size, "
+              "phrase and slop): the result has one natural-number entry per row, and every matching document contains each "
+              "of the phrase's terms. The other two (an exact match stays a match; distinct terms with length+slop <= 18: an "
+              "in-order window matches) are NOT proved: they are decided on every run by the extracted clause oracle "
+              "(Span/Span_Spec.v) on implementation and model over structured near-miss corpora, hence the level `other`. "
+              "The model (512-slot span table, compaction, give-up path, min-popcount fallback, compiled 32-bit position "
+              "mask) is compared with the real termfreqs(slop=s) on every generated case."),
         design_ref="DESIGN.md 7 (C15)",
         note=COMMON_NOTE + "Slop search is documented as experimental; the check found and the repo now repairs two "
-             "defects (exhausted-term read, cross-document cursor drift).",
-        technique="Coq line-level model + clause oracle, model/impl correspondence (no theorem yet)",
+             "defects (exhausted-term read, cross-document cursor drift). No axioms.",
+        technique="Coq proof for two clauses (cursor / segment invariants) + clause oracle and model/impl correspondence for the other two",
     ),
 
     "C19": dict(
